@@ -120,6 +120,59 @@ def check_case(rep, drv, case, rng=None):
                     rep.disagree('DEC-noncanonical', replay, 'ok', 'rejected')
 
 
+def check_open_type(rep, case, rng):
+    """the restrictions hold inside a resolved open type too: the value as the inner value of
+    SEQUENCE { id INTEGER, value [ [0] EXPLICIT ] ANY DEFINED BY id }, every rewrite of the inner encoding,
+    decoded by the DER (CER for BOOLEAN) decoder with open type resolution on"""
+    from pyasn1.type import univ, namedtype, opentype, tag
+    from pyasn1 import error
+    ie = codec.impl_encode('der', case.t, case.v, obj=case.fresh_obj())
+    if ie[0] != 'ok':
+        return
+    inner = ie[1]
+    try:
+        rws = list(rewrites(case, inner))
+    except wire.WireError:
+        return
+    if not rws:
+        return
+    for explicit in (False, True):
+        any_spec = univ.Any()
+        if explicit:
+            any_spec = any_spec.subtype(explicitTag=tag.Tag(tag.tagClassContext, tag.tagFormatSimple, 0))
+        ot = opentype.OpenType('id', {1: case.schema})
+        outer = univ.Sequence(componentType=namedtype.NamedTypes(
+            namedtype.NamedType('id', univ.Integer()), namedtype.NamedType('value', any_spec, openType=ot)))
+
+        def frame(payload):
+            if explicit:
+                payload = b'\xa0' + wire.emit_len(len(payload)) + payload
+            body = b'\x02\x01\x01' + payload
+            return b'\x30' + wire.emit_len(len(body)) + body
+        # the canonical encoding resolves (otherwise the shape is outside what open types support; not C15's matter)
+        try:
+            o, rest = codec.DEC['der'].decode(frame(inner), asn1Spec=outer, decodeOpenTypes=True)
+            if rest or not gen.val_equiv(case.t, gen.abstract(case.t, o['value']), case.v):
+                continue
+        except Exception:  # noqa
+            continue
+        for kind, mutant, depth in rws:
+            rep.count('open-type-rewrite=' + kind.split('-')[0])
+            for dec in ['der'] + (['cer'] if kind.startswith('boolean') else []):
+                replay = dict(case.replay, kind='open-type-rewrite', rewrite=kind, depth=depth, bytes=frame(mutant).hex(), decoder=dec,
+                              explicit=explicit, inner_der=inner.hex())
+                try:
+                    codec.DEC[dec].decode(frame(mutant), asn1Spec=outer, decodeOpenTypes=True)
+                    rep.fail('noncanonical-accepted-in-open-type:%s:%s' % (kind.split('-')[0], dec),
+                             '%s decoder resolving an open type accepted a %s rewrite at depth %d of the inner value' % (dec.upper(), kind, depth), replay)
+                except error.SubstrateUnderrunError:
+                    rep.fail('noncanonical-underrun', 'complete non-canonical input reported as insufficient data', replay)
+                except error.PyAsn1Error:
+                    pass
+                except Exception as e:  # noqa
+                    rep.fail('noncanonical-leak:' + type(e).__name__, 'non-library exception on a %s rewrite inside an open type' % kind, replay)
+
+
 def schemaless(dec, data):
     try:
         obj, rest = codec.DEC[dec].decode(data)
@@ -150,6 +203,8 @@ def run(rep, tier, seed):
         rep.case(case.canon, nontrivial=gen.depth(case.t) >= 1,
                  sample={'type': gen.ty_sexp(case.t)[:300], 'value': gen.val_sexp(case.v)[:300]})
         check_case(rep, drv, case, rng)
+        if len(case.canon) < 400:
+            check_open_type(rep, case, rng)
 
     def check_one(c, drv, case, r):
         check_case(c, drv, case)
